@@ -547,6 +547,34 @@ fn clf_t<T: Num>(c: &mut Case, grown: bool) {
     });
 
     // ---- exactly n_trees member trees
+    // ---- call sequence fit → store → restore → predict: the restored forest is the same forest
+    if c.rng.bool(0.3) {
+        let json = c.rng.bool(0.5);
+        let fmt = if json { "json-value" } else { "bincode" };
+        c.bucket(&format!("sequence:fit-store-restore-predict/{}", fmt));
+        let back: Option<Result<RandomForestClassifier<T>, String>> = c.must("clf.restore", || if json { serde_json::from_value(ja.clone()).map_err(|e| format!("serde_json::from_value: {}", e)) } else { restored(fa, false) });
+        match back {
+            Some(Ok(f2)) => {
+                for (k, m) in [&xm, &xfm].iter().enumerate() {
+                    match c.must("clf.restored.predict", || f2.predict(*m)) {
+                        Some(Ok(v)) => {
+                            let v = fv(&v);
+                            c.check(&format!("clf.restored.predict/{}", fmt), bits(&v) == bits(&preds[k]), &sg, || format!("restored forest predicts {:?}, the fitted forest {:?}", v, preds[k]));
+                        }
+                        Some(Err(e)) => {
+                            c.check(&format!("clf.restored.predict/{}", fmt), false, &sg, || format!("predict of the restored forest returned Err({})", e));
+                        }
+                        None => {}
+                    }
+                }
+            }
+            Some(Err(msg)) => {
+                c.check(&format!("clf.restored.ok/{}", fmt), false, &sg, || msg.clone());
+            }
+            None => {}
+        }
+    }
+
     let n_json_trees = ja.get("trees").and_then(|t| t.as_array()).map(|a| a.len());
     c.check("clf.n-trees", n_json_trees == Some(prm.n_trees), &sg, || format!("forest holds {:?} member trees, n_trees = {}", n_json_trees, prm.n_trees));
 
@@ -650,12 +678,15 @@ fn clf_t<T: Num>(c: &mut Case, grown: bool) {
                     let oob = &oobs[0];
                     if c.check("clf.oob.shape", oob.len() == n, &sg, || format!("{} OOB predictions for {} rows", oob.len(), n)) {
                         let mut without = 0;
+                        let mut empty_vals: Vec<(usize, f64)> = Vec::new();
                         for i in 0..n {
                             let members: Vec<usize> = (0..nt).filter(|t| !masks[*t][i]).collect();
                             if members.is_empty() {
-                                // the property defines nothing for a row that every bootstrap sample contains
-                                c.count("oob.rows-without-oob-tree(skipped)");
+                                // the property defines no value for a row that every bootstrap sample contains, but an
+                                // aggregate of no tree at all cannot depend on the row: all such rows get one value
+                                c.count("oob.rows-without-oob-tree(value-not-judged)");
                                 without += 1;
+                                empty_vals.push((i, oob[i]));
                                 continue;
                             }
                             proper_oob |= members.len() < nt;
@@ -668,6 +699,10 @@ fn clf_t<T: Num>(c: &mut Case, grown: bool) {
                             c.check("clf.labels.original", label_bits.contains(&oob[i].to_bits()), &format!("{}/oob", w), || {
                                 format!("row {}: OOB prediction {} is not one of the training labels {:?}", i, oob[i], labels)
                             });
+                        }
+                        if empty_vals.len() >= 2 {
+                            let same = empty_vals.iter().all(|(_, v)| v.to_bits() == empty_vals[0].1.to_bits() || (v.is_nan() && empty_vals[0].1.is_nan()));
+                            c.check("clf.oob.no-tree=>row-independent", same, &sg, || format!("rows contained in every bootstrap sample (no out-of-bag tree) receive different OOB predictions (row, value): {:?}", empty_vals));
                         }
                         c.bucket(if without == 0 { "oob:every-row-has-an-oob-tree" } else if without == n { "oob:no-row-has-an-oob-tree" } else { "oob:some-rows-without-oob-tree" });
                     }
@@ -770,6 +805,34 @@ fn reg_t<T: Num>(c: &mut Case, grown: bool) {
     c.check("reg.reproducible.predict", same_bits_or_both_nan(&preds[0], &preds[2]) && same_bits_or_both_nan(&preds[1], &preds[3]), &sg, || {
         format!("predictions of two identically seeded fits differ: train {:?} vs {:?}; fresh {:?} vs {:?}", preds[0], preds[2], preds[1], preds[3])
     });
+
+    // ---- call sequence fit → store → restore → predict: the restored forest is the same forest
+    if c.rng.bool(0.3) {
+        let json = c.rng.bool(0.5);
+        let fmt = if json { "json-value" } else { "bincode" };
+        c.bucket(&format!("sequence:fit-store-restore-predict/{}", fmt));
+        let back: Option<Result<RandomForestRegressor<T>, String>> = c.must("reg.restore", || if json { serde_json::from_value(ja.clone()).map_err(|e| format!("serde_json::from_value: {}", e)) } else { restored(fa, false) });
+        match back {
+            Some(Ok(f2)) => {
+                for (k, m) in [&xm, &xfm].iter().enumerate() {
+                    match c.must("reg.restored.predict", || f2.predict(*m)) {
+                        Some(Ok(v)) => {
+                            let v = fv(&v);
+                            c.check(&format!("reg.restored.predict/{}", fmt), same_bits_or_both_nan(&v, &preds[k]), &sg, || format!("restored forest predicts {:?}, the fitted forest {:?}", v, preds[k]));
+                        }
+                        Some(Err(e)) => {
+                            c.check(&format!("reg.restored.predict/{}", fmt), false, &sg, || format!("predict of the restored forest returned Err({})", e));
+                        }
+                        None => {}
+                    }
+                }
+            }
+            Some(Err(msg)) => {
+                c.check(&format!("reg.restored.ok/{}", fmt), false, &sg, || msg.clone());
+            }
+            None => {}
+        }
+    }
 
     let n_json_trees = ja.get("trees").and_then(|t| t.as_array()).map(|a| a.len());
     c.check("reg.n-trees", n_json_trees == Some(prm.n_trees), &sg, || format!("forest holds {:?} member trees, n_trees = {}", n_json_trees, prm.n_trees));
@@ -874,12 +937,14 @@ fn reg_t<T: Num>(c: &mut Case, grown: bool) {
                     let oob = &oobs[0];
                     if c.check("reg.oob.shape", oob.len() == n, &sg, || format!("{} OOB predictions for {} rows", oob.len(), n)) {
                         let mut without = 0;
+                        let mut empty_vals: Vec<(usize, f64)> = Vec::new();
                         let sgo = format!("{}/oob", w);
                         for i in 0..n {
                             let idx: Vec<usize> = (0..nt).filter(|t| !masks[*t][i]).collect();
                             if idx.is_empty() {
-                                c.count("oob.rows-without-oob-tree(skipped)");
+                                c.count("oob.rows-without-oob-tree(value-not-judged)");
                                 without += 1;
+                                empty_vals.push((i, oob[i]));
                                 continue;
                             }
                             proper_oob |= idx.len() < nt;
@@ -892,6 +957,10 @@ fn reg_t<T: Num>(c: &mut Case, grown: bool) {
                             });
                             let over = if oob[i].is_nan() { f64::NAN } else { (ymin - oob[i]).max(oob[i] - ymax).max(0.0) };
                             c.ratio("reg.range", over, tol_range, &sgo, || format!("row {}: OOB prediction {:e} outside the range [{:e}, {:e}] of the training targets", i, oob[i], ymin, ymax));
+                        }
+                        if empty_vals.len() >= 2 {
+                            let same = empty_vals.iter().all(|(_, v)| v.to_bits() == empty_vals[0].1.to_bits() || (v.is_nan() && empty_vals[0].1.is_nan()));
+                            c.check("reg.oob.no-tree=>row-independent", same, &sg, || format!("rows contained in every bootstrap sample (no out-of-bag tree) receive different OOB predictions (row, value): {:?}", empty_vals));
                         }
                         c.bucket(if without == 0 { "oob:every-row-has-an-oob-tree" } else if without == n { "oob:no-row-has-an-oob-tree" } else { "oob:some-rows-without-oob-tree" });
                     }
@@ -963,7 +1032,7 @@ fn main() {
         rule: "one case = one data set (4..120 rows, 1..6 features; continuous / normal / small-integer / pairwise-distinct lattice features, optionally a constant feature and duplicated rows; 2..4 classes with non-contiguous, negative or fractional label values incl. classes with a single row / real targets of seven kinds; f64, 20 % f32) + one parameter set (seed in {0, u64::MAX, small, 2^s±1, random u64}, n_trees 1..30, m in {None,1..p}, max_depth None|1..8, min_samples_leaf 1..5, min_samples_split 0..8, three criteria, keep_samples on 75 %) fitted twice, predicted on the training rows and on 1..10 fresh rows (some copies of training rows, some far outside); the *_grown families disable all tree limits on lattice data and keep the samples. A case is non-trivial when the forest has >= 2 trees and either two member trees disagree on an evaluated row or some training row has a non-empty proper subset of out-of-bag trees; distinct = distinct hash of (model, width, X, fresh X, y, all parameters)",
         assumptions: vec![
             "the bootstrap of tree t is observed through the model's own `samples[t]` mask (the observation point the property names); in the *_grown families it is cross-checked against the member tree itself: with all limits disabled and pairwise distinct feature values a tree reproduces the label / target of every row of its own bootstrap sample, and a regression tree has exactly one leaf per distinct row of its bootstrap sample",
-            "ties for the plurality are accepted in favour of any tied class; rows contained in every bootstrap sample have no defined out-of-bag prediction and are skipped (counted as oob.rows-without-oob-tree(skipped))",
+            "ties for the plurality are accepted in favour of any tied class; rows contained in every bootstrap sample have no defined out-of-bag value (counted as oob.rows-without-oob-tree(value-not-judged)); only its independence of the row is required, i.e. all such rows of one forest receive the same value",
             "mean tolerance 4500·eps (1e-12 in f64) relative to the largest member prediction; range tolerance 4·max(n,8)²·eps·max|y| (rounding bound of the leaf means, factor >= 8 head-room)",
             "predict_oob without kept samples and the content of `samples` with keep_samples = false carry no verdict (recorded as buckets)",
             "member trees are re-hydrated through serde_json::Value (no decimal text round trip), so their thresholds and outputs are bit-exact copies",
